@@ -261,7 +261,7 @@ pub fn property() -> Property {
                 name: "field",
                 rule: "content = 0-4 chunks (ASCII, multi-byte single-width, double-width, SGR-wrapped) through {msg}/{prefix}/a custom key with width around the content width / small / any u16, every alignment, '!' on/off; compared cell-wise with the reference field; non-trivial = non-ASCII or SGR content on the padding or truncation path",
                 strategy: |_| pad_strategy(),
-                cases: |t| t.pick(12_000, 500_000),
+                cases: |t| t.pick(12_000, 2_000_000),
                 run: run_pad,
                 signature: no_signature,
                 essential: &["truncation_path", "truncation_non_ascii_or_sgr", "padding_path", "overflow_unshortened", "double_width", "sgr"],
@@ -272,7 +272,7 @@ pub fn property() -> Property {
                 name: "wide_msg",
                 rule: "literal{wide_msg[:align]}literal on terminals 1..200 columns with the same contents: wide_msg must equal a truncating field of width terminal - rest and the line must not exceed the terminal when the rest fits",
                 strategy: |_| wide_strategy(),
-                cases: |t| t.pick(8_000, 300_000),
+                cases: |t| t.pick(8_000, 1_200_000),
                 run: run_wide,
                 signature: no_signature,
                 essential: &["truncation_path", "truncation_non_ascii_or_sgr", "padding_path", "rest_does_not_fit", "wide_msg_last"],
